@@ -1,6 +1,7 @@
 // Harness for spec/IprForms*.tla: one object of every declarator-form, attribute and capture class through every factory
 // overload; each is visited with a recording visitor of every family it belongs to.
 //   forms sweep      stdout: ndjson, one line per (object, family)
+#include <cstdlib>
 #include <iostream>
 #include "maker.hpp"
 
@@ -163,6 +164,13 @@ int main(int argc, char** argv)
    std::string mode = argc > 1 ? argv[1] : "";
    try {
       if (mode == "sweep") return do_sweep();
+   }
+   catch (const std::logic_error& e) {
+      // the library throws logic errors, the harness run-time errors: one that arrives here escaped from a call of the library
+      // where the harness expected none -- recorded like a crash (a terminal event), not as a failure of the harness
+      std::cout.flush();
+      std::cerr << "exception of the library escaped: " << e.what() << "\n";
+      std::abort();
    }
    catch (const std::exception& e) {
       std::cout << "HARNESS-ERROR " << e.what() << "\n";
